@@ -368,7 +368,8 @@ Step(t, b) ==
                   ELSE [t EXCEPT !.bad = @ \cup {<<"utf8", <<>>>>}]
            ELSE IF t.font # 0 THEN PrintCp(t, b)      \* alternate font (CP437-style ACS): the byte is the glyph
            ELSE MbStep(t, b)
-      [] t.lx = "mb" -> IF b < 128 /\ b < 64 THEN Bad(t, <<"undecodable", Append(t.buf, b)>>) ELSE MbStep(t, b)
+      \* (trail bytes may be digits: GB18030's four-byte codes are 81..FE 30..39 81..FE 30..39; a control byte ends it)
+      [] t.lx = "mb" -> IF b < 48 THEN Bad(t, <<"undecodable", Append(t.buf, b)>>) ELSE MbStep(t, b)
       [] t.lx = "u8" ->
            IF b < 128 \/ b > 191 THEN Bad(t, <<"utf8", <<>>>>)
            ELSE LET acc == t.acc * 64 + (b - 128) IN
